@@ -7,6 +7,7 @@ Helper lemmas about state propagation in the kernel model (`markStepPending`,
 No property statements here (they are in `Props/C01.lean`, `Props/C04.lean`).
 -/
 namespace StepupModel.K
+open StepupModel.Generated
 
 /-! ## Observations -/
 
@@ -898,6 +899,75 @@ theorem propInv_shash (q : Key) (v : Option Nat) : PropInv (fun s => s.shashOf q
           simpa [KState.shashOf, hf] using hs
         · simp only [KState.shashOf, find?_modify_ne s t q _ hkey hq]
           exact hs
+
+/-! ## `update_file_hashes` for one file -/
+
+/-- `update_file_hashes` for a single path, spelled out. -/
+theorem updateFileHashes_single (s : KState) (p : String) (h : Option Nat) (c : Cause) :
+    s.updateFileHashes [(p, h)] c =
+      (s.hashRec c (p, h) >>= fun r =>
+        s.writeFile r.key r.newState (some r.newHash) >>= fun s1 =>
+          (if r.action = some .updated then s1.handleUpdated r.key else pure s1) >>= fun s2 =>
+          (if r.action = some .deleted then s2.handleDeleted r.key else pure s2) >>= fun s3 =>
+          (if r.action = some .completed then s3.markConsumersPending r.key else pure s3)) := by
+  unfold KState.updateFileHashes
+  simp only [List.isEmpty_cons, Bool.false_eq_true, if_false, List.mergeSort_singleton, List.mapM_cons, List.mapM_nil]
+  cases hr : s.hashRec c (p, h) with
+  | error e => simp [bind, Except.bind]
+  | ok r =>
+    simp only [bind, Except.bind, pure, Except.pure, List.foldlM_cons, List.foldlM_nil]
+    cases hw : s.writeFile r.key r.newState (some r.newHash) with
+    | error e => rfl
+    | ok s1 =>
+      simp only
+      rcases r with ⟨k, ns, nh, act⟩
+      cases act with
+      | none => simp [List.filter, pure, Except.pure]
+      | some a =>
+        cases a with
+        | updated =>
+          simp [List.filter, pure, Except.pure, bind, Except.bind]
+          cases s1.handleUpdated k <;> rfl
+        | deleted =>
+          simp [List.filter, pure, Except.pure, bind, Except.bind]
+          cases s1.handleDeleted k <;> rfl
+        | completed =>
+          simp [List.filter, pure, Except.pure, bind, Except.bind]
+          cases s1.markConsumersPending k <;> rfl
+
+/-- A file whose state is not in the static role does not get there. -/
+theorem propInv_notStaticRole (q : Key) :
+    PropInv (fun s => ∀ st, s.fstateOf q = some st → st.role? ≠ some .static) where
+  file := fun s s' f hs _ _ h => by
+    rw [setFileState_eq] at h
+    intro st hst
+    rw [(writeFile_effect s s' f _ _ h).1 q] at hst
+    by_cases hq : q = f
+    · subst hq
+      cases hc : s.fstateOf q with
+      | none => simp [hc] at hst
+      | some y =>
+        simp [hc] at hst
+        subst hst
+        simp [FileState.role?]
+    · simp only [hq, if_false] at hst
+      exact hs st hst
+  step := fun s s' t _ hs _ _ _ h => by
+    rw [setStepState_eq] at h
+    intro st hst
+    rw [(writeStepState_effect s s' t _ _ h).2.1 q] at hst
+    exact hs st hst
+
+/-- What the regenerated `_HASH_TRANSITIONS` says about the EXTERNAL cause (startup rescan,
+watcher): the new state is MISSING, CONFIRMED or PLANNED (never BUILT), in the role of the old
+one, and a follow-up action (updated or deleted) always runs. -/
+theorem external_transition_facts (st new : FileState) (known : Bool) (act : Option Action)
+    (h : lookupTransition .external st known = some (new, act)) :
+    (new = .missing ∨ new = .confirmed ∨ new = .planned) ∧ (act = some .updated ∨ act = some .deleted) ∧
+      new.role? = st.role? := by
+  unfold lookupTransition at h
+  cases st <;> cases known <;> simp [hashTransitions, List.find?] at h <;>
+    (obtain ⟨rfl, rfl⟩ := h; simp [FileState.role?])
 
 /-! ## Requests that only touch cache flags (C04) -/
 
